@@ -8,7 +8,7 @@ ConnsAll == {"i1", "i2", "i3", "i4", "i5", "o1", "o2", "o3", "o4"}
 ConnsQ == {"i1", "i2", "i3", "o1", "o2"}            \* the three limits under concurrency
 ConnsQ2 == {"i1", "i5", "o1", "o3", "o4"}           \* address / connecting-list / peer-id refusals
 ConnsT == {"i1", "i2", "i3", "i4", "o1", "o2", "o3"}
-ConnsT2 == {"i1", "i2", "i4", "i5", "o1", "o3", "o4"}
+ConnsT2 == {"i1", "i2", "i5", "o1", "o3", "o4"}
 
 DirM == [c \in ConnsAll |-> IF c \in {"o1", "o2", "o3", "o4"} THEN "out" ELSE "in"]
 IpM == "i1" :> "A" @@ "i2" :> "A" @@ "i3" :> "B" @@ "i4" :> "B" @@ "i5" :> "C" @@ "o1" :> "D" @@ "o2" :> "E" @@ "o3" :> "D" @@ "o4" :> "A"
